@@ -12,6 +12,13 @@ def e3(what, shards_q=16, shards_t=16):
 def e2(what, sq=16, st=16):
     return {'engine': 'e2_seg', 'variant': 'V', 'args': [f'--what={what}'], 'shards': {'quick': sq, 'thorough': st}}
 
+def e1(mode, n, extra=(), tiers=('quick','thorough'), extra_q=(), extra_t=()):
+    return {'engine': 'e1_mgr', 'variant': 'V', 'args': [f'--mode={mode}'] + list(extra), 'args_quick': list(extra_q), 'args_thorough': list(extra_t), 'shards': n, 'tiers': tiers}
+
+A_E1 = A_COMMON + [
+    "manager state space explored by deviation-bounded search around four driving policies (entire-fill, streaming, flush-after-every-submit, occupancy sweep); segment lengths from {0,1,B-1,B,B+1,2B+3,7B}; K = lanes+2 contexts",
+    "visited-state pruning uses a 64-bit hash of the raw byte image of manager + contexts + model counters",
+]
 PLANS = {
  'C02': {
   'level': 'exploration', 'steps': [e3('gcm')], 'eval_stats': ['calls_gcm'], 'distinct_key': 'shape',
@@ -55,5 +62,34 @@ PLANS = {
   'rule': "explicit-state search on the real isal_rolling_hash2_run: state = stream position p with the canonical (hash, last w bytes) restored, transition = run(max_len m) for every m in [0,N-p]; for w in [1,48] x scan routine {base,_00,_04} (dispatch slot re-pointed) x 11 (mask,trigger) pairs; after every transition (offset, match) must equal the definition from the pinned table and the resulting state must be the canonical state of position p+offset, which by induction covers every partition of the stream into any number of calls; chained runs without state restore validate the canonical-state abstraction against states genuinely reached from reset; plus exhaustive mask_gen sweep",
   'bound': {'quick': 'stream length w+70', 'thorough': 'stream length w+150'},
   'deadline': {'quick': 240, 'thorough': 3000}, 'assumptions': A_COMMON + ['history bytes at index >= w are not part of the canonical state (never read for i < w by construction of the API)'],
+ },
+ 'C06': {
+  'level': 'model_checking', 'steps': [e1('explore', 112)],
+  'eval_stats': ['transitions'], 'distinct_key': 'abstract_states', 'state_stats': ['states'], 'transition_stats': ['transitions'],
+  'rule': "explicit-state search on the real manager and contexts of every algorithm x family (28 instances x 4 policies): a state is the byte image of manager + K contexts (snapshot/restore by memcpy) plus the reference model; every enabled symbol (flush, valid submits FIRST/UPDATE/LAST/ENTIRE with 7 lengths on fresh/idle/completed contexts, 10 kinds of rejected submit) is a deviation from the driving policy; bounds d=0,1,2.. iterated; invariants I1-I6 evaluated after every transition; distinct = abstract (occupancy, status multiset) states reached",
+  'bound': {'quick': 'deviations d<=2 for families with <=4 lanes, d<=1 otherwise', 'thorough': 'd<=3 for <=4 lanes, d<=2 otherwise (deadline-cut bounds are reported)'},
+  'deadline': {'quick': 200, 'thorough': 2700}, 'assumptions': A_E1,
+ },
+ 'C01': {
+  'level': 'model_checking', 'steps': [e1('explore', 112, extra_q=['--d4=1']), e1('seg', 112)],
+  'eval_stats': ['transitions'], 'distinct_key': None, 'state_stats': ['states'], 'transition_stats': ['transitions'],
+  'rule': "same state space as C06 (digest of every context handed back complete compared with the standard hash of everything submitted since FIRST, incl. context reuse and mid-stream restart) plus, per family, all segmentations (l1,l2) in [0,2B+1]^2 as FIRST/LAST, FIRST/UPDATE/LAST(0) and ENTIRE under four lane occupancies (alone, 1, lanes-2, lanes-1 long background jobs in flight); digests compared with own FIPS 180-4 / RFC 1321 / GB/T 32905 references",
+  'bound': {'quick': 'explore d<=1; seg (l1,l2) in [0,2B+1]^2', 'thorough': 'explore d<=3 (<=4 lanes) / d<=2; seg additionally a third piece'},
+  'deadline': {'quick': 200, 'thorough': 2700}, 'assumptions': A_E1,
+ },
+ 'C11': {
+  'level': 'model_checking', 'steps': [e1('explore', 112), e1('explore', 112, ['--entry=public'])],
+  'eval_stats': ['transitions'], 'distinct_key': 'abstract_states', 'state_stats': ['states'], 'transition_stats': ['transitions'],
+  'rule': "same state space as C06 with the rejected submits as ordinary alphabet symbols, so that every explored manager state receives every kind of rejection followed by every continuation in the budget; per rejection: returned pointer, error code (precedence flags > processing > completed), byte image of manager and all other contexts unchanged, rejected context unchanged except its error field; explored twice: on the family symbols and through the public isal_*_ctx_mgr_* wrappers re-pointed to each family, where every valid call must return 0 and every rejection the mapped code",
+  'bound': {'quick': 'family level d<=2 (<=4 lanes) / d<=1, public level d<=1', 'thorough': 'family level d<=3 (<=4 lanes) / d<=2, public level d<=1'},
+  'deadline': {'quick': 200, 'thorough': 2700}, 'assumptions': A_E1,
+ },
+ 'C15': {
+  'level': 'exploration', 'steps': [e1('len', 84)],
+  'eval_stats': ['streams'], 'distinct_key': 'len_shape',
+  'rule': "non-initial-state exploration: after FIRST(m0) came back idle for every residue m0 in [0,B), total_length is advanced by a multiple of the block size so that the running total is delta bytes below T in {2^29, 2^32, 2^32+2^29}; then all (l1,l2) UPDATE/LAST segmentations crossing T; per algorithm x family; digest compared with the reference hash given the same length offset, total_length with the sum",
+  'bound': {'quick': '9 delta values per residue, l1 step 3, l2 step 5', 'thorough': 'all delta in [1,2B], all l1, l2'},
+  'deadline': {'quick': 200, 'thorough': 2700},
+  'assumptions': A_COMMON + ["the teleported state is equivalent to the genuinely reached one because the context layer uses total_length only through total_length mod B and the padding length field; validated in the thorough tier by genuine > 4 GiB streams when built"],
  },
 }
